@@ -167,6 +167,11 @@ pub fn wait_fg_job(sh: &mut shell::Shell, gid: i32, pids: &[i32]) -> CommandResu
         let pid = ws.get_pid();
         let is_a_fg_child = pids.contains(&pid);
         if is_a_fg_child {
+            // this status is newer than any stop/continue of the same process
+            // parked earlier (e.g. by the SIGCHLD handler after `bg`)
+            signals::pop_stopped_map(pid);
+            signals::pop_cont_map(pid);
+
             // a member that stops and later exits counts once; one that is
             // continued has to be waited for again
             if ws.is_continued() {
